@@ -522,6 +522,7 @@ void checkOracles(const Desc& d, const Obs& o, RunResult& r) {
     }
     if (o.fails.size() != failCursor) r.fail("C01", "failure_count", sigOf("what", "failure outside any test"), sfmt("%zu failures recorded, %zu inside test segments", o.fails.size(), failCursor));
 
+    if (!o.wrapperProblems.empty()) r.fail(o.wrapperProblems.find("plugins installed") != Str::npos ? "C17" : "C01", "static_entry_point", sigOf("what", o.wrapperProblems.find("plugins installed") != Str::npos ? "runner's own plugin left installed" : (o.wrapperProblems.find("returned") != Str::npos ? "return value" : "actions")), o.wrapperProblems);
     if (o.pluginCount != o.pluginCountExpected || o.removedStillFound) r.fail("C17", "plugin_removed", sigOf("what", o.pluginCount > o.pluginCountExpected ? "plugin not removed" : "wrong plugin removed"), sfmt("%d plugins installed after the removals, model %d; %d removed names still found", o.pluginCount, o.pluginCountExpected, o.removedStillFound));
     if (c.separate && !d.pi("synthetic")) {
         for (Map<Str, size_t>::const_iterator it = childTokens.begin(); it != childTokens.end(); ++it) {
